@@ -590,6 +590,63 @@ func totalAdversary(f Fields) (dec string, b []byte) {
 		return "cff", totalCffNameIndex(num("count", 65535), num("offsize", 4))
 	case "gsub-lookups-alias":
 		return "gsub", totalGsubLookupsAliased(num("count", 3), num("last", 0xffff))
+	case "cmap-straddle": // a subtable header straddling the end of the table: k bytes left for format `fmt`
+		k, fm := num("k", 10), num("fmt", 12)
+		b := []byte{0, 0, 0, 1, 0, 3, 0, 10, 0, 0, 0, 12}
+		tail := make([]byte, k)
+		if k >= 2 {
+			copy(tail, totalBe16b(fm))
+		} else if k == 1 {
+			tail[0] = byte(fm >> 8)
+		}
+		if k >= 4 && fm < 8 {
+			copy(tail[2:], totalBe16b(k)) // a plausible 16-bit length
+		}
+		if k >= 8 && fm >= 8 && fm != 14 {
+			copy(tail[4:], totalBe32b(k))
+		}
+		if k >= 6 && fm == 14 {
+			copy(tail[2:], totalBe32b(k))
+		}
+		return "cmap", append(b, tail...)
+	case "kern-straddle": // one subtable header with k bytes left
+		b := []byte{0, 0, 0, 1}
+		h := []byte{0, 0, 0, 14, 0, 1, 0, 1, 0, 6, 0, 0, 0, 0, 0, 3, 0, 4, 0, 5}
+		k := num("k", 6)
+		if k > len(h) {
+			k = len(h)
+		}
+		return "kern", append(b, h[:k]...)
+	case "name-straddle": // one Windows record whose string ends j bytes beyond the end of storage
+		j, l := num("j", 1), num("len", 3)
+		b := []byte{0, 0, 0, 1, 0, 18, 0, 3, 0, 1, 0x04, 0x09, 0, 1}
+		b = append(b, totalBe16b(l)...)
+		b = append(b, 0, 0)
+		have := l - j
+		if have < 0 {
+			have = 0
+		}
+		for i := 0; i < have; i++ {
+			b = append(b, byte(0x41*(i%2)))
+		}
+		return "name", b
+	case "post-straddle": // format 2, one glyph with a custom name whose Pascal string ends j bytes short
+		j, l := num("j", 1), num("len", 3)
+		b := []byte{0, 2, 0, 0}
+		b = append(b, make([]byte, 28)...)
+		b = append(b, 0, 1, 1, 2) // one glyph, index 258
+		if j <= l {
+			b = append(b, byte(l))
+			b = append(b, make([]byte, l-j)...)
+		}
+		return "post", b
+	case "cffindex-straddle": // CFF header + Name INDEX (2 items) cut k bytes before its end
+		b := []byte{1, 0, 4, 1, 0, 2, 1, 1, 3, 6, 'a', 'b', 'c', 'd', 'e'}
+		k := num("k", 1)
+		if k > len(b) {
+			k = len(b)
+		}
+		return "cff", b[:len(b)-k]
 	case "t2-nested-gsubrs": // §9 #26
 		gs, g1 := totalT2Bomb(num("levels", 4), num("calls", 12))
 		return "cff", totalCffRebuild(cffSeed(), gs, g1, -1)
@@ -681,6 +738,32 @@ func totalSiteStatus(name string) string {
 	return "match"
 }
 
+// totalSeedProblems: library panics while the seed pool was built (valid inputs made with the
+// library's own encoders); reported by areaTotal as failing D cases, never as a harness crash.
+var totalSeedProblems []string
+
+func totalSeedBlock(name string, fn func()) {
+	defer func() {
+		if r := recover(); r != nil {
+			totalSeedProblems = append(totalSeedProblems, name+" site="+totalPanicSite()+":"+totalPanicClass(r))
+		}
+	}()
+	fn()
+}
+
+// totalSafely runs a piece of GENERATOR code that calls into the library; a panic there becomes a
+// failing D case (`total.genpanic`), never a crash of the harness.
+func totalSafely(c *Ctx, name string, fn func()) {
+	defer func() {
+		if r := recover(); r != nil {
+			site := totalPanicSite() + ":" + totalPanicClass(r)
+			c.Stat("generator-panic", name+" "+site)
+			c.Case(Direct, "total.genpanic", "gen="+name+" site="+site, true)
+		}
+	}()
+	fn()
+}
+
 // totalLast holds the measurements of the most recent total.<decoder> execution (the
 // generator runs single-threaded and reads it right after c.Case).
 var totalLast totalOut
@@ -725,6 +808,8 @@ func init() {
 	// (lean/SfntV/Tie/<name>.json): a V line, so that a changed/added/removed index, slice, make,
 	// assertion or panic site, or a changed guard, breaks the tie of this property
 	ops["total.sites"] = func(f Fields) string { return totalSiteStatus(f["name"]) }
+	// a library panic inside generator code (seed pool, model generators): always a failure
+	ops["total.genpanic"] = func(f Fields) string { return "generator-panicked:" + f["gen"] + ":" + f["site"] }
 	// constructed adversaries named by their parameters (the input is rebuilt from the line alone)
 	ops["total.adv"] = func(f Fields) string {
 		switch f["kind"] {
@@ -736,6 +821,16 @@ func init() {
 			}
 			loca = append(totalBe32b(0), loca...)
 			return totalD("glyf", Fields{"bytes": hx(make([]byte, g)), "loca": hx(loca), "fmt": "1"})
+		case "loca-straddle": // last loca entry j bytes beyond the end of glyf (format 0 and 1)
+			g, j := 20, f.Int("j")
+			glyf := make([]byte, g)
+			var loca []byte
+			if f["fmt"] == "1" {
+				loca = append(totalBe32b(0), totalBe32b(g+j)...)
+			} else {
+				loca = append(totalBe16b(0), totalBe16b((g+j)/2)...)
+			}
+			return totalD("glyf", Fields{"bytes": hx(glyf), "loca": hx(loca), "fmt": f["fmt"]})
 		case "hmtx-extreme": // numberOfHMetrics vs table length
 			return totalD("hmtx", Fields{"bytes": hx(make([]byte, f.Int("len"))), "hhea": hx(totalHheaFor(f.Int("hmetrics")))})
 		case "cff-charset", "cff-fdselect": // sub-structure readers through the C13 hooks; n = glyph count
@@ -1124,123 +1219,138 @@ func totalSeeds() []totalSeed {
 		return b
 	}
 
-	// 1. the debug font (CFF outlines), with GSUB/GPOS/GDEF built by the lookup builder
-	simple := debug.MakeSimpleFont()
-	addFont(simple, "simple-cff")
-	rich := debug.MakeSimpleFont()
-	rich.Gsub = &gtab.Info{
-		ScriptList:  gtab.ScriptListInfo{},
-		FeatureList: gtab.FeatureListInfo{{Tag: "liga", Lookups: []gtab.LookupIndex{0, 1, 2, 3, 4, 5}}},
-		LookupList: totalMustLookups(simple, `
-	GSUB1: A->B, M->N
-	GSUB1: A->X, B->X, C->X, M->X, N->X
-	GSUB2: A -> "AA", B -> "AA", C -> "ABAAC"
-	GSUB3: A -> ["AA"], B -> ["AA"], C -> ["ABAAC"]
-	GSUB4: -marks A A A -> B, A -> D, A A -> C
-	GSUB5: "AAA" -> 1@0 2@1 1@0, "AAB" -> 1@0 1@1 2@0 ||
-		class :alpha: = [A-K]
-		class :digits: = [L-Z]
-		/A B C/ :alpha: :digits: -> 2@1, :alpha: :: :digits: -> 2@2 ||
-		[A B C] [A C] [A D] -> 3@0
-	GSUB6: A B | C D | E F -> 1@0 2@1, B | C D E | F -> 1@2 ||
-		inputclass :ABC: = ["ABC"]
-		backtrackclass :DEF: = ["DEF"]
-		lookaheadclass :DEF: = ["DEF"]
-		/A B C/ :DEF: :: | :ABC: | :: :DEF: -> 1@0 ||
-		[A] [A B C] | [A B] [A C] [B C] | [A B C] [A B C] -> 1@0 1@1 1@2
-	`),
-	}
-	rich.Gpos = &gtab.Info{
-		ScriptList:  gtab.ScriptListInfo{},
-		FeatureList: gtab.FeatureListInfo{{Tag: "kern", Lookups: []gtab.LookupIndex{0, 1, 2, 3, 4}}},
-		LookupList: totalMustLookups(simple, `
-	GPOS1: [A-C] -> y+10 ||
-		D -> dx-1, E -> dx+1, F -> dx-1, G -> dx+1, H -> x+1, I -> y+1
-	GPOS2: A V -> dx-100, O O -> dx+100, "AW" -> dx-100
-	GPOS2: T E -> y+100 dx-50 & y-100
-	GPOS2:
-	    /A L V W/
-	    first V W, A L;
-		second E O, V W;
-		_, _, _,
-		_, dx-50 & y-10, dx+10,
-		_, dx-10 & y+10, dx-30
-	GPOS3:
-	  A: 1,1 to 2,2; B: 1,0 to 0,1; C: -1,-1 to 100,100 ||
-	  M: 1,1 to 2,2; N: 1,1 to 2,2
-	GPOS4:
-	  mark M: 0@100,100;
-	  mark N: 1@200,100;
-	  base A: @400,1000 @500,1000;
-	  base B: @500,1000 @600,900;
-	  base C: @500,1000 @500,-1000;
-	`),
-	}
-	rich.Gdef = &gdef.Table{
-		GlyphClass:      classdef.Table{4: 1, 5: 1, 6: 2, 16: 3, 17: 3},
-		MarkAttachClass: classdef.Table{16: 1, 17: 2},
-		MarkGlyphSets:   []coverage.Set{{16: true}, {16: true, 17: true}, {}},
-	}
-	addFont(rich, "rich-cff")
+	totalSeedBlock("debug-fonts", func() {
+		// 1. the debug font (CFF outlines), with GSUB/GPOS/GDEF built by the lookup builder
+		simple := debug.MakeSimpleFont()
+		addFont(simple, "simple-cff")
+		rich := debug.MakeSimpleFont()
+		rich.Gsub = &gtab.Info{
+			ScriptList:  gtab.ScriptListInfo{},
+			FeatureList: gtab.FeatureListInfo{{Tag: "liga", Lookups: []gtab.LookupIndex{0, 1, 2, 3, 4, 5}}},
+			LookupList: totalMustLookups(simple, `
+		GSUB1: A->B, M->N
+		GSUB1: A->X, B->X, C->X, M->X, N->X
+		GSUB2: A -> "AA", B -> "AA", C -> "ABAAC"
+		GSUB3: A -> ["AA"], B -> ["AA"], C -> ["ABAAC"]
+		GSUB4: -marks A A A -> B, A -> D, A A -> C
+		GSUB5: "AAA" -> 1@0 2@1 1@0, "AAB" -> 1@0 1@1 2@0 ||
+			class :alpha: = [A-K]
+			class :digits: = [L-Z]
+			/A B C/ :alpha: :digits: -> 2@1, :alpha: :: :digits: -> 2@2 ||
+			[A B C] [A C] [A D] -> 3@0
+		GSUB6: A B | C D | E F -> 1@0 2@1, B | C D E | F -> 1@2 ||
+			inputclass :ABC: = ["ABC"]
+			backtrackclass :DEF: = ["DEF"]
+			lookaheadclass :DEF: = ["DEF"]
+			/A B C/ :DEF: :: | :ABC: | :: :DEF: -> 1@0 ||
+			[A] [A B C] | [A B] [A C] [B C] | [A B C] [A B C] -> 1@0 1@1 1@2
+		`),
+		}
+		rich.Gpos = &gtab.Info{
+			ScriptList:  gtab.ScriptListInfo{},
+			FeatureList: gtab.FeatureListInfo{{Tag: "kern", Lookups: []gtab.LookupIndex{0, 1, 2, 3, 4}}},
+			LookupList: totalMustLookups(simple, `
+		GPOS1: [A-C] -> y+10 ||
+			D -> dx-1, E -> dx+1, F -> dx-1, G -> dx+1, H -> x+1, I -> y+1
+		GPOS2: A V -> dx-100, O O -> dx+100, "AW" -> dx-100
+		GPOS2: T E -> y+100 dx-50 & y-100
+		GPOS2:
+		    /A L V W/
+		    first V W, A L;
+			second E O, V W;
+			_, _, _,
+			_, dx-50 & y-10, dx+10,
+			_, dx-10 & y+10, dx-30
+		GPOS3:
+		  A: 1,1 to 2,2; B: 1,0 to 0,1; C: -1,-1 to 100,100 ||
+		  M: 1,1 to 2,2; N: 1,1 to 2,2
+		GPOS4:
+		  mark M: 0@100,100;
+		  mark N: 1@200,100;
+		  base A: @400,1000 @500,1000;
+		  base B: @500,1000 @600,900;
+		  base C: @500,1000 @500,-1000;
+		`),
+		}
+		rich.Gdef = &gdef.Table{
+			GlyphClass:      classdef.Table{4: 1, 5: 1, 6: 2, 16: 3, 17: 3},
+			MarkAttachClass: classdef.Table{16: 1, 17: 2},
+			MarkGlyphSets:   []coverage.Set{{16: true}, {16: true, 17: true}, {}},
+		}
+		addFont(rich, "rich-cff")
 
-	// 2. Go Regular (TrueType outlines), whole and as a small subset
-	out = append(out, totalSeed{"sfnt", "goregular", goregular.TTF, ""}, totalSeed{"header", "goregular", goregular.TTF, ""})
-	out = append(out, totalTablesOf(goregular.TTF, "goregular")...)
-	if gofont, err := sfnt.Read(bytes.NewReader(goregular.TTF)); err == nil {
-		func() {
-			defer func() { recover() }()
-			sub := gofont.Subset([]glyph.ID{0, 1, 2, 3, 36, 37, 38, 68, 69, 70, 130, 131, 200, 201})
-			addFont(sub, "goregular-subset")
-		}()
-		addFont(gofont, "goregular-rewritten")
-	}
+	})
+	totalSeedBlock("goregular", func() {
+		// 2. Go Regular (TrueType outlines), whole and as a small subset
+		out = append(out, totalSeed{"sfnt", "goregular", goregular.TTF, ""}, totalSeed{"header", "goregular", goregular.TTF, ""})
+		out = append(out, totalTablesOf(goregular.TTF, "goregular")...)
+		if gofont, err := sfnt.Read(bytes.NewReader(goregular.TTF)); err == nil {
+			func() {
+				defer func() { recover() }()
+				sub := gofont.Subset([]glyph.ID{0, 1, 2, 3, 36, 37, 38, 68, 69, 70, 130, 131, 200, 201})
+				addFont(sub, "goregular-subset")
+			}()
+			addFont(gofont, "goregular-rewritten")
+		}
 
-	// 3. stand-alone tables from the encoders
-	k := kern.Info{}
-	for i := 0; i < 20; i++ {
-		k[glyph.Pair{Left: glyph.ID(3 + i%5), Right: glyph.ID(7 + i)}] = totalFunitInt16(-50 + 7*i)
-	}
-	out = append(out, totalSeed{"kern", "enc:kern", k.Encode(), ""})
-	out = append(out, totalSeed{"kern", "enc:kern-empty", kern.Info{}.Encode(), ""})
-	out = append(out, totalSeed{"gdef", "enc:gdef", rich.Gdef.Encode(), ""})
-	out = append(out, totalSeed{"gdef", "enc:gdef-10", (&gdef.Table{GlyphClass: classdef.Table{1: 1, 2: 3}}).Encode(), ""})
-	cov := coverage.Table{3: 0, 4: 1, 5: 2, 9: 3, 20: 4, 21: 5, 22: 6, 23: 7}
-	out = append(out, totalSeed{"coverage", "enc:coverage", cov.Encode(), ""}, totalSeed{"covset", "enc:coverage", cov.Encode(), ""})
-	cov2 := coverage.Table{}
-	for i := 0; i < 40; i++ {
-		cov2[glyph.ID(10+i)] = i
-	}
-	out = append(out, totalSeed{"coverage", "enc:coverage-range", cov2.Encode(), ""}, totalSeed{"covset", "enc:coverage-range", cov2.Encode(), ""})
-	out = append(out, totalSeed{"classdef", "enc:classdef-1", classdef.Table{5: 1, 6: 2, 7: 1, 8: 3}.Append(nil), ""})
-	out = append(out, totalSeed{"classdef", "enc:classdef-2", classdef.Table{5: 1, 6: 1, 7: 1, 100: 2, 101: 2, 300: 3}.Append(nil), ""})
-	out = append(out, totalSeed{"maxp", "enc:maxp-cff", (&maxp.Info{NumGlyphs: 7}).Encode(), ""})
-	out = append(out, totalSeed{"maxp", "enc:maxp-ttf", (&maxp.Info{NumGlyphs: 300, TTF: &maxp.TTFInfo{MaxPoints: 9, MaxZones: 2, MaxComponentDepth: 1}}).Encode(), ""})
+	})
+	totalSeedBlock("encoder-tables", func() {
+		// 3. stand-alone tables from the encoders
+		k := kern.Info{}
+		for i := 0; i < 20; i++ {
+			k[glyph.Pair{Left: glyph.ID(3 + i%5), Right: glyph.ID(7 + i)}] = totalFunitInt16(-50 + 7*i)
+		}
+		out = append(out, totalSeed{"kern", "enc:kern", k.Encode(), ""})
+		out = append(out, totalSeed{"kern", "enc:kern-empty", kern.Info{}.Encode(), ""})
+		richGdef := &gdef.Table{
+			GlyphClass:      classdef.Table{4: 1, 5: 1, 6: 2, 16: 3, 17: 3},
+			MarkAttachClass: classdef.Table{16: 1, 17: 2},
+			MarkGlyphSets:   []coverage.Set{{16: true}, {16: true, 17: true}, {}},
+		}
+		out = append(out, totalSeed{"gdef", "enc:gdef", richGdef.Encode(), ""})
+		out = append(out, totalSeed{"gdef", "enc:gdef-10", (&gdef.Table{GlyphClass: classdef.Table{1: 1, 2: 3}}).Encode(), ""})
+		cov := coverage.Table{3: 0, 4: 1, 5: 2, 9: 3, 20: 4, 21: 5, 22: 6, 23: 7}
+		out = append(out, totalSeed{"coverage", "enc:coverage", cov.Encode(), ""}, totalSeed{"covset", "enc:coverage", cov.Encode(), ""})
+		cov2 := coverage.Table{}
+		for i := 0; i < 40; i++ {
+			cov2[glyph.ID(10+i)] = i
+		}
+		out = append(out, totalSeed{"coverage", "enc:coverage-range", cov2.Encode(), ""}, totalSeed{"covset", "enc:coverage-range", cov2.Encode(), ""})
+		out = append(out, totalSeed{"classdef", "enc:classdef-1", classdef.Table{5: 1, 6: 2, 7: 1, 8: 3}.Append(nil), ""})
+		out = append(out, totalSeed{"classdef", "enc:classdef-2", classdef.Table{5: 1, 6: 1, 7: 1, 100: 2, 101: 2, 300: 3}.Append(nil), ""})
+		out = append(out, totalSeed{"maxp", "enc:maxp-cff", (&maxp.Info{NumGlyphs: 7}).Encode(), ""})
+		out = append(out, totalSeed{"maxp", "enc:maxp-ttf", (&maxp.Info{NumGlyphs: 300, TTF: &maxp.TTFInfo{MaxPoints: 9, MaxZones: 2, MaxComponentDepth: 1}}).Encode(), ""})
 
-	// 3b. cmap tables with the subtable formats the fonts above do not contain (0, 6, 12)
-	f0 := &cmap.Format0{}
-	for i := range f0.Data {
-		f0.Data[i] = byte(i / 2)
-	}
-	f12 := cmap.Format12{}
-	for i := 0; i < 40; i++ {
-		f12[uint32(0x1F600+i)] = glyph.ID(5 + i)
-	}
-	f12[0x41] = 3
-	f6 := []byte{0, 6, 0, 20, 0, 0, 0, 0x41, 0, 5, 0, 1, 0, 2, 0, 0, 0, 4, 0, 5}
-	mk := func(pid, eid int, sub []byte) []byte {
-		b := []byte{0, 0, 0, 1}
-		b = append(b, totalBe16b(pid)...)
-		b = append(b, totalBe16b(eid)...)
-		b = append(b, 0, 0, 0, 12)
-		return append(b, sub...)
-	}
-	out = append(out, totalSeed{"cmap", "enc:cmap-format0", mk(1, 0, f0.Encode(0)), ""})
-	out = append(out, totalSeed{"cmap", "enc:cmap-format6", mk(3, 1, f6), ""})
-	out = append(out, totalSeed{"cmap", "enc:cmap-format6-mac", mk(1, 0, f6), ""})
-	out = append(out, totalSeed{"cmap", "enc:cmap-format12", mk(3, 10, f12.Encode(0)), ""})
+	})
+	totalSeedBlock("cmap-formats", func() {
+		// 3b. cmap tables with the subtable formats the fonts above do not contain (0, 6, 12)
+		f0 := &cmap.Format0{}
+		for i := range f0.Data {
+			f0.Data[i] = byte(i / 2)
+		}
+		f12 := cmap.Format12{}
+		for i := 0; i < 40; i++ {
+			f12[uint32(0x1F600+i)] = glyph.ID(5 + i)
+		}
+		f12[0x41] = 3
+		f6 := []byte{0, 6, 0, 20, 0, 0, 0, 0x41, 0, 5, 0, 1, 0, 2, 0, 0, 0, 4, 0, 5}
+		mk := func(pid, eid int, sub []byte) []byte {
+			b := []byte{0, 0, 0, 1}
+			b = append(b, totalBe16b(pid)...)
+			b = append(b, totalBe16b(eid)...)
+			b = append(b, 0, 0, 0, 12)
+			return append(b, sub...)
+		}
+		out = append(out, totalSeed{"cmap", "enc:cmap-format0", mk(1, 0, f0.Encode(0)), ""})
+		out = append(out, totalSeed{"cmap", "enc:cmap-format6", mk(3, 1, f6), ""})
+		out = append(out, totalSeed{"cmap", "enc:cmap-format6-mac", mk(1, 0, f6), ""})
+		out = append(out, totalSeed{"cmap", "enc:cmap-format12", mk(3, 10, f12.Encode(0)), ""})
 
-	// 4. the repository's fuzz corpora
-	out = append(out, totalCorpusSeeds()...)
+	})
+	totalSeedBlock("corpora", func() {
+		// 4. the repository's fuzz corpora
+		out = append(out, totalCorpusSeeds()...)
+	})
 	totalSeedCache = out
 	return out
 }
@@ -2203,6 +2313,105 @@ func totalFontTableMutate(r *Rng, file []byte) ([]byte, string) {
 	return c, "font-table"
 }
 
+// totalMirrorToD re-uses the structured inputs of the model generators (verdict lines `tm<group>.<op>
+// bytes=…`) for the direct predicate: the same bytes are handed to the whole decoder + accessors as
+// `total.<decoder>` D lines, so that a panic of the real code on a structured input is reported with
+// a concrete input (a V mismatch alone only says that the tie broke).
+func totalMirrorToD(c *Ctx, r *Rng, emit func(dec, how, src string, b []byte, extra string) string) {
+	type target struct {
+		dec  string
+		wrap func(f Fields) ([]byte, string, bool)
+	}
+	plain := func(f Fields) ([]byte, string, bool) {
+		if f["bytes"] == "" || f["bytes"] == "-" || (f["pos"] != "" && f["pos"] != "0") {
+			return nil, "", false
+		}
+		return f.Hex("bytes"), "", true
+	}
+	sub := func(pid, eid int) func(f Fields) ([]byte, string, bool) {
+		return func(f Fields) ([]byte, string, bool) {
+			if f["bytes"] == "" || len(f["bytes"]) < 20 {
+				return nil, "", false
+			}
+			b := []byte{0, 0, 0, 1}
+			b = append(b, totalBe16b(pid)...)
+			b = append(b, totalBe16b(eid)...)
+			b = append(b, 0, 0, 0, 12)
+			return append(b, f.Hex("bytes")...), "", true
+		}
+	}
+	targets := map[string]target{
+		"tmnamecff.name":   {"name", plain},
+		"tmmetrics.post":   {"post", plain},
+		"tmmetrics.head":   {"head", plain},
+		"tmmetrics.os2":    {"os2", plain},
+		"tmcmapdir.decode": {"cmap", plain},
+		"tmotl.coverage":   {"coverage", plain},
+		"tmotl.covset":     {"covset", plain},
+		"tmotl.classdef":   {"classdef", plain},
+		"tmcmap4.decode":   {"cmap", sub(3, 1)},
+		"tmcmap12.decode":  {"cmap", sub(3, 10)},
+		"tmcmapdir.f0":     {"cmap", sub(1, 0)},
+		"tmcmapdir.f6":     {"cmap", sub(3, 1)},
+		"tmmetrics.hmtx": {"hmtx", func(f Fields) ([]byte, string, bool) {
+			if f["bytes"] == "-" {
+				return nil, "", false
+			}
+			return f.Hex("bytes"), " hhea=" + f["hhea"], true
+		}},
+		"tmglyfdec.decode": {"glyf", func(f Fields) ([]byte, string, bool) {
+			return f.Hex("bytes"), " loca=" + f["loca"] + " fmt=" + f["fmt"], true
+		}},
+	}
+	lines := make([]string, 0, len(c.seen))
+	for l := range c.seen {
+		if strings.HasPrefix(l, "tm") {
+			lines = append(lines, l)
+		}
+	}
+	sort.Strings(lines)
+	perOp := map[string][]string{}
+	for _, l := range lines {
+		op := l
+		if i := strings.IndexByte(l, ' '); i >= 0 {
+			op = l[:i]
+		}
+		if _, ok := targets[op]; ok {
+			perOp[op] = append(perOp[op], l)
+		}
+	}
+	opNames := make([]string, 0, len(perOp))
+	for op := range perOp {
+		opNames = append(opNames, op)
+	}
+	sort.Strings(opNames)
+	limit := c.N/10 + 50
+	for _, op := range opNames {
+		ll := perOp[op]
+		step := 1
+		if len(ll) > limit {
+			step = len(ll)/limit + 1
+		}
+		for i := r.Intn(step); i < len(ll); i += step {
+			l := ll[i]
+			rest := ""
+			if j := strings.IndexByte(l, ' '); j >= 0 {
+				rest = l[j+1:]
+			}
+			var b []byte
+			var extra string
+			var ok bool
+			func() {
+				defer func() { recover() }() // a malformed hex field of a foreign generator is skipped
+				b, extra, ok = targets[op].wrap(parseFields(rest))
+			}()
+			if ok && len(b) <= 20000 {
+				emit(targets[op].dec, "structured:"+op, "model-generator", b, extra)
+			}
+		}
+	}
+}
+
 // ---------------------------------------------------------------- generator
 
 func areaTotal(c *Ctx) {
@@ -2216,6 +2425,10 @@ func areaTotal(c *Ctx) {
 	}
 	sort.Strings(decNames)
 	c.Stat("seeds", fmt.Sprint(len(seeds)))
+	for _, p := range totalSeedProblems {
+		c.Stat("generator-panic", "seed-pool "+p)
+		c.Case(Direct, "total.genpanic", "gen=seed-pool-"+strings.ReplaceAll(p, " ", "_"), true)
+	}
 
 	extraFor := func(dec string, seedExtra string) string {
 		if seedExtra != "" {
@@ -2299,6 +2512,15 @@ func areaTotal(c *Ctx) {
 			both(s.dec, "truncate-every", s.src, s.bytes[:n], s.extra)
 		}
 	}
+	// 2b. the last 1..15 bytes cut off every seed (records that end exactly at the end of the table)
+	for _, s := range seeds {
+		if s.dec == "*" || len(s.bytes) <= 160 || len(s.bytes) > 20000 {
+			continue
+		}
+		for k := 1; k <= 15 && k < len(s.bytes); k++ {
+			both(s.dec, "truncate-tail", s.src, s.bytes[:len(s.bytes)-k], s.extra)
+		}
+	}
 	// hmtx/glyf: truncation of the companion table as well
 	for _, s := range seeds {
 		if s.dec == "hmtx" && len(s.bytes) < 4000 {
@@ -2321,7 +2543,11 @@ func areaTotal(c *Ctx) {
 		} else if i := strings.Index(out, ":"); i >= 0 {
 			cls = out[:i]
 		}
-		c.Stat("adversary", args+" -> "+cls)
+		key := args
+		if strings.Contains(args, "-straddle") {
+			key = strings.Fields(args)[0] + " (k/j/len/fmt varied)"
+		}
+		c.Stat("adversary", key+" -> "+cls)
 		if out != "total" && out != "skipped" {
 			c.Stat("finding-class", "adv "+args+" "+out)
 		}
@@ -2367,6 +2593,24 @@ func areaTotal(c *Ctx) {
 	}
 	// decoder alone (acc=0): re-encoding a GDEF whose sets share one 65536-glyph coverage table converts
 	// the shared set once per reference (Encode calls ToTable three times per set), which is accessor cost
+	// families "header straddling the end of the table" (two-stage length checks)
+	for k := 0; k <= 15; k++ {
+		for _, fm := range []int{0, 2, 4, 6, 8, 10, 12, 13, 14} {
+			adv(fmt.Sprintf("kind=cmap-straddle fmt=%d k=%d", fm, k))
+		}
+		adv(fmt.Sprintf("kind=kern-straddle k=%d", k))
+		adv(fmt.Sprintf("kind=cffindex-straddle k=%d", k))
+	}
+	for _, l := range []int{0, 1, 2, 3, 4, 5, 255} {
+		for j := -1; j <= 3; j++ {
+			adv(fmt.Sprintf("kind=name-straddle len=%d j=%d", l, j))
+			adv(fmt.Sprintf("kind=post-straddle len=%d j=%d", l, j))
+		}
+	}
+	for j := -2; j <= 4; j++ {
+		adv(fmt.Sprintf("kind=loca-straddle fmt=0 j=%d", j))
+		adv(fmt.Sprintf("kind=loca-straddle fmt=1 j=%d", j))
+	}
 	adv("kind=gdef-alias sets=20 acc=0")
 	adv("kind=gdef-alias sets=2000 acc=0")
 	adv("kind=gdef-distinct sets=2")
@@ -2421,8 +2665,11 @@ func areaTotal(c *Ctx) {
 	}
 	sort.Strings(names)
 	for _, n := range names {
-		totalModelGens[n](c, NewRng(r.U64()), seeds)
+		n := n
+		sub := NewRng(r.U64())
+		totalSafely(c, "model-generator-"+n, func() { totalModelGens[n](c, sub, seeds) })
 	}
+	totalMirrorToD(c, NewRng(r.U64()), emit)
 
 	// 4. mutations
 	small := []totalSeed{}
